@@ -658,6 +658,51 @@ namespace
         return H(w.parameters.coordinate_system->distance_between_points_at_same_depth(Point<3>(r, D(f[3]), D(f[4]), CoordinateSystem::spherical),
                                                                                         Point<3>(r, D(f[5]), D(f[6]), CoordinateSystem::spherical)));
       }
+    if (op == "ridge")
+      {
+        // ridge world depthcoord x y ridges velocities subducting  -> spreading_velocity distance subducting_velocity migration_time
+        // ridges: "x,y;x,y|x,y;x,y" (natural coordinates: metres or radians), velocities: "v;v|v;v" (one per ridge point),
+        // subducting: "v" or "v;v|v;v". Calls the library's own ridge kernel at a point given in natural coordinates.
+        need(8);
+        World &w = st.w(f[1]);
+        const CoordinateSystem cs = w.parameters.coordinate_system->natural_coordinate_system();
+        std::vector<std::vector<Point<2>>> ridges;
+        for (const std::string &r : split(f[5], '|'))
+          {
+            std::vector<Point<2>> pts;
+            for (const std::string &pt : split(r, ';'))
+              {
+                const std::vector<std::string> xy = split(pt, ',');
+                if (xy.size() != 2) throw std::string("ridge point needs x,y");
+                pts.emplace_back(D(xy[0]), D(xy[1]), cs);
+              }
+            ridges.push_back(pts);
+          }
+        auto lists = [&](const std::string &spec)
+        {
+          std::vector<std::vector<double>> out;
+          for (const std::string &r : split(spec, '|'))
+            {
+              std::vector<double> v;
+              for (const std::string &e : split(r, ';'))
+                v.push_back(D(e));
+              out.push_back(v);
+            }
+          return out;
+        };
+        const std::vector<std::vector<double>> vel = lists(f[6]);
+        const std::vector<std::vector<double>> sub = lists(f[7]);
+        std::array<double,3> nat;
+        if (cs == CoordinateSystem::spherical)
+          nat = {{D(f[2]), D(f[3]), D(f[4])}};
+        else
+          nat = {{D(f[3]), D(f[4]), D(f[2])}};
+        const std::array<double,3> cart = w.parameters.coordinate_system->natural_to_cartesian_coordinates(nat);
+        const Objects::NaturalCoordinate nc(cart, *(w.parameters.coordinate_system));
+        const std::vector<double> times(ridges.size(), 0.0);
+        const std::vector<double> r = Utilities::calculate_ridge_distance_and_spreading(ridges, vel, w.parameters.coordinate_system, nc, sub, times);
+        return HV(r);
+      }
     if (op == "n2c" || op == "c2n")
       {
         need(5);
